@@ -354,6 +354,20 @@ class C18(SingleRun):
             "persisted states diffed after every API call; non-trivial = the run appended >= 2 records for one task id or merged >= 2 "
             "arrivals into one entry")
     faults = dict(poll_skip=0.1, poll_twice=0.1, restart=0.03, dup=0.05, pause=0.02, cancel=0.01, rerun=0.4, p_fail=0.15)
+    kf_share = 0.2
+
+    def profile(self, seed, tier, as_prop=None):
+        p = SingleRun.profile(self, seed, tier, as_prop)
+        K = Keyed(seed)
+        if K.u("profile", "latejoin") < 0.25:
+            # an inbound branch arriving while the join it feeds is already running is where the
+            # record of a started execution is most exposed (statement: "another branch arriving at
+            # the same task later does not alter what a running or finished execution saw")
+            p["gates"]["join_partial"] = True
+            p["force_gates"] = {"join": True, "fork": True, "join_partial": True}
+            p["require_features"] = ["join_partial"]
+            p["faults"]["slow_branch"] = 0.6
+        return p
 
     def nontrivial(self, r):
         w = r["world"]
